@@ -59,6 +59,9 @@ def shards(tier, seed, scale=1.0):
     for s in range(4):
         out.append({'name': 'pathlib-%d' % s, 'kind': 'pathlib', 'shard': s, 'of': 4 * (8 if tier == 'quick' else 1),
                     'budget': 3, 'plen': 5})
+    L = 8 if tier == 'quick' else 32
+    for s in range(L):
+        out.append({'name': 'loose-%d' % s, 'kind': 'loose', 'shard': s, 'of': L, 'budget': 3 if tier == 'quick' else 4, 'nlen': 3})
     out.append({'name': 'exclude', 'kind': 'exclude', 'seed': seed, 'n': int((400 if tier == 'quick' else 6000) * scale)})
     out.append({'name': 'fs', 'kind': 'fs', 'seed': seed, 'n': int((150 if tier == 'quick' else 2500) * scale)})
     return out
@@ -76,6 +79,8 @@ def run_shard(desc):
         return c02.run_hyp(desc, PROPERTY, select_path)
     if k == 'pathlib':
         return run_pathlib(desc)
+    if k == 'loose':
+        return c01.run_loose(desc, PROPERTY, select_fn, dots=(False,))
     if k == 'exclude':
         return run_exclude(desc)
     if k == 'fs':
